@@ -45,6 +45,9 @@ type Op struct {
 	Comment  string      `json:",omitempty"`
 	Data     []byte      `json:",omitempty"`
 	Flags    int         `json:",omitempty"`
+	// AsAgentKey: sign / remove name their target as an *agent.Key (format + blob, what a listing hands
+	// out) instead of a parsed key or certificate object
+	AsAgentKey bool `json:",omitempty"`
 	Pass     string      `json:",omitempty"`
 	Lifetime uint32      `json:",omitempty"`
 	Body     []byte      `json:",omitempty"`
@@ -732,7 +735,11 @@ func (w *world) step(i int, op Op) error {
 		case "sign":
 			// every byte slice handed to the agent is the caller's: overwritten once the call returned
 			d2 := append([]byte{}, data...)
-			sig, opErr = w.sh.SignWithFlags(key, d2, agent.SignatureFlags(op.Flags))
+			var named ssh.PublicKey = key
+			if op.AsAgentKey && key != nil {
+				named = &agent.Key{Format: key.Type(), Blob: key.Marshal()}
+			}
+			sig, opErr = w.sh.SignWithFlags(named, d2, agent.SignatureFlags(op.Flags))
 			scribble(d2)
 		case "signvia":
 			signers, opErr = w.sh.Signers()
@@ -1032,6 +1039,15 @@ func (w *world) step(i int, op Op) error {
 			w.mem = memAfter
 			return nil
 		}
+		// the flags of the caller's request reach the underlying agent as they are
+		for _, f := range w.p.Frames() {
+			if f.Index >= frames0 && f.Code == CodeSign && len(f.Body) >= 4 && len(f.Body) == f.Len {
+				got := int(f.Body[len(f.Body)-4])<<24 | int(f.Body[len(f.Body)-3])<<16 | int(f.Body[len(f.Body)-2])<<8 | int(f.Body[len(f.Body)-1])
+				if op.Kind == "sign" && got != op.Flags {
+					return Errf("%s on %s: the caller asked with signature flags %d, the sign request that reached the underlying agent carries flags %d", where, keyDesc, op.Flags, got)
+				}
+			}
+		}
 		var expectOK, unsure bool
 		var verifyKey ssh.PublicKey = key
 		switch {
@@ -1080,7 +1096,11 @@ func (w *world) step(i int, op Op) error {
 				return Errf("%s on %s: signature does not verify under the identity's key: %v", where, keyDesc, verr)
 			}
 			// an RSA identity asked for SHA-2 (flags 2 / 4) answers in that algorithm, as the underlying agent would
-			if want, ok := map[int]string{2: ssh.KeyAlgoRSASHA256, 4: ssh.KeyAlgoRSASHA512}[op.Flags]; ok && verifyKey.Type() == ssh.KeyAlgoRSA && sig.Format != want {
+			baseType := verifyKey.Type()
+			if vc, isC := verifyKey.(*ssh.Certificate); isC {
+				baseType = vc.Key.Type() // a certificate over an RSA key signs like the key
+			}
+			if want, ok := map[int]string{2: ssh.KeyAlgoRSASHA256, 4: ssh.KeyAlgoRSASHA512}[op.Flags]; ok && baseType == ssh.KeyAlgoRSA && sig.Format != want {
 				return Errf("%s on %s with flags %d: signature algorithm %q, the underlying agent would answer %q", where, keyDesc, op.Flags, sig.Format, want)
 			}
 			w.tr.SignChecks++
